@@ -73,6 +73,21 @@ PROPS = {
                     "assumed std contracts: <[T]>::sort_unstable_by returns a rearrangement ordered by the comparator; <[u8; 32] as Ord>::cmp is byte-wise lexicographic (cross-checked by Kani c17_cmp_contract); Ordering::then"],
         "assumed": ["attacker-supplied epochs are < u64::MAX and the epoch list is shorter than usize::MAX (overflow guards)"],
     },
+    "C02": {
+        "verus": ["directory_lookup", ("verify_lookup", ["lookup_verify"])],
+        "scope": "partial (server-side ASSEMBLY of a lookup answer + agreement with the verifier; not the tree contents): Directory::lookup reads the epoch record once and that one record decides the epoch of "
+                 "the answer, the state filter, the tree the proofs are taken from and the root hash returned with them; get_lookup_info selects the newest state NOT NEWER than that epoch (LeqEpoch) and a label "
+                 "without such a state gets an error, never a proof; build_lookup_info asks the VRF for exactly the triple (Fresh, v), (Fresh, 2^floor(log2 v)), (Stale, v) - the same `plog` the verifier's contract "
+                 "(C06) uses, get_marker_version = 63 - leading_zeros verified; lookup_with_info fills every field from the component produced for the right (freshness, version) and tree label: the three VRF "
+                 "proofs' bytes, membership proofs of the existent and marker labels, the non-membership proof of the stale label, value/version/epoch of the selected state, and the commitment nonce of "
+                 "(key-derived commitment key, node label of the fresh VRF proof, version, value). Not decided: that the tree contains these leaves (C01), that honest membership / non-membership proofs verify "
+                 "(C05 completeness), batch_lookup's loop, lock discipline against the poller.",
+        "trusted": ["T4 the VRF as functions of (key storage, label, freshness, version); R-UFCS rewrites `self.vrf.m(..)` into free-function stubs (the VRF trait has async methods)",
+                    "T6 results of storage / tree reads are functions of what one request sees (user_state, mem_proof, nonmem_proof, root_hash_of, azks_read)",
+                    "Directory is a model struct with the fields these functions touch; R-UTF8 makes the error-message choice opaque; the greedy preload only warms the cache (external)",
+                    "<[T]>::to_vec is an element-wise clone (assumed std contract)"],
+        "assumed": ["stored versions are >= 1 (precondition R_versions; `64 - leading_zeros(0) - 1` would underflow)"],
+    },
     "C10": {
         "verus": ["directory_publish", ("tree_node", [TN + "get_appropriate_tree_node_from_storage", TN + "determine_node_to_get", "TreeNode.get_from_storage", "TreeNode.get_child_label", "TreeNode.get_child_node"])],
         "search": True,
@@ -140,12 +155,12 @@ PROPS = {
     "C11": {
         "verus": [("tree_node", [TN + "determine_node_to_get", TN + "get_appropriate_tree_node_from_storage", TN + "write_to_storage", "TreeNode.write_to_storage", "lemma_rot"]),
                   ("manager", [SM + "commit_transaction", SM + "tic_toc", SM + "increment_metric", "DbRecord.transaction_priority"]),
-                  "azks_insert"],
+                  "azks_insert", ("directory_lookup", ["Directory.get_lookup_info", "Directory.build_lookup_info", "get_marker_version", "Azks.get_latest_epoch"])],
         "scope": "partial, record level: TreeNode::write_to_storage writes exactly {label, latest: self, previous: as-of(stored, epoch-1) or None when new}; rotation lemma: that record still "
                  "serves the as-of-(E) node at E and serves the new node at E+1; readers select by target epoch; the batch a commit hands to the database is non-empty only with the epoch "
                  "record last (else Err before any database write); Azks has the lowest commit priority; write discipline of the recursive batch insertion "
                  "(recursive_batch_insert_nodes: sequential branch, spawned task body and join): a node is written as brand new - dropping the previous-epoch state - only if it was constructed "
-                 "during this insertion (every write's is_new flag is the flag its subtree's insertion returned; the pushed-down existing node is written as existing). "
+                 "during this insertion (every write's is_new flag is the flag its subtree's insertion returned; the pushed-down existing node is written as existing); the lookup path filters value states by epoch <= the served epoch (get_lookup_info: LeqEpoch). "
                  "The crash-point quantifier over sets of records is not decided.",
         "trusted": ["T6 sequential semantics of async fns", "StorageManager::get/set external", "derived Clone is structural (companion)",
                     "'constructed during this insertion' is a knowledge token handed out by new_interior_node / new_leaf_node only; that no stored record exists for such a label is the trie invariant, not proved",
